@@ -592,7 +592,13 @@ impl<T: ArrayValue> Array<T> {
     /// Get an iterator over the row arrays of the array that have the given shape
     pub fn into_row_shaped_slices(self, row_shape: Shape) -> impl DoubleEndedIterator<Item = Self> {
         let row_len = row_shape.elements();
-        let zero_count = if row_len == 0 { self.row_count() } else { 0 };
+        // Empty rows: there is one for every combination of the leading axes
+        let zero_count = if row_len == 0 {
+            let depth = self.rank().saturating_sub(row_shape.len());
+            self.shape[..depth].iter().product()
+        } else {
+            0
+        };
         let row_sh = row_shape.clone();
         let nonzero = self
             .data
